@@ -3,6 +3,7 @@ package main
 // Property table: which functions / lemmas / table checks decide which property.
 
 import (
+	"go/constant"
 	"bufio"
 	"fmt"
 	"go/types"
@@ -92,6 +93,30 @@ func init() {
 		Trusted: []string{"lock discipline implies data-race freedom (standard theorem, assumed; sync.Mutex semantics)",
 			"functions listed as initfuncs run before the screen is shared with another goroutine (stated precondition of Init / constructors)"},
 		Assume: []string{"schedules are not explored: what is decided is lock ownership at every access site on every control-flow path"},
+	})
+	reg(&PropDef{
+		ID:    "C02",
+		Level: "proof",
+		Funcs: []string{"tcell.(*tScreen).parseRune", "tcell.(*tScreen).parseFunctionKey", "tcell.(*tScreen).parseFocus", "tcell.(*tScreen).parseClipboard",
+			"tcell.(*tScreen).parseXtermMouse", "tcell.(*tScreen).parseSgrMouse", "tcell.(*tScreen).collectEventsFromInput", "tcell.(*tScreen).inputLoop"},
+		Custom: []func(*PropRun){c02Replays},
+		Trusted: []string{"bytes.Buffer.ReadBytes consumes up to and including the first delimiter (assumed from its documentation; the body uses an assembly IndexByte); other bytes.Buffer methods executed from source",
+			"base64 Decode/DecodedLen: bounds only (assumed)", "transform.Transformer contract (bounds, no output without input)",
+			"composition: independence of the read chunking follows from the per-parser prefix contracts (complete => a non-empty prefix is consumed and the events depend on that prefix only; not complete => nothing touched; partial exactly for proper prefixes of acceptable input) and the driver contract - this meta-argument is written in DESIGN.md, not machine-checked; mainLoop/inputLoop (timers, channels) are outside"},
+		Assume: []string{"the key table has no empty sequence and no nil entry (established for every registered description by the C03 obligation keytable[*]/nonempty-keys)",
+			"the screen is at least 1x1 while input is decoded", "range over the symbolic key table: every iteration sees an arbitrary entry (over-approximation); termination of that loop is not proved",
+			"parseFunctionKey / parseSgrMouse: the partial flag is not characterised (only: not complete => nothing consumed)"},
+	})
+	reg(&PropDef{
+		ID:    "C11",
+		Level: "proof",
+		Funcs: []string{"tcell.(*tScreen).parseRune", "tcell.(*tScreen).parseFocus", "tcell.(*tScreen).parseFunctionKey", "tcell.(*tScreen).inputLoop", "tcell.(*tScreen).collectEventsFromInput"},
+		Custom: []func(*PropRun){c11Paste, c02Replays},
+		Trusted: []string{"transform.Transformer (the charset decoder): bounds and 'no output without consuming input' are assumed; WHICH rune a byte sequence decodes to is the decoder's business (x/text), not modelled",
+			"Tty.Read fills at most len(p) bytes and reports how many (assumed interface contract)",
+			"Go channels are FIFO; one reader of keychan (mainLoop): chunk order = read order (assumed)"},
+		Assume: []string{"the composition 'one event per character, in order, for every split of the byte stream' follows from: parseRune offers every prefix length before answering partial and consumes exactly what the decoder consumed; the driver re-runs the parsers on the accumulated buffer; chunks are private copies in read order - the whole-stream statement is a meta-argument (DESIGN.md), not a single obligation",
+			"per-charset statement 'every code point decodes from exactly its own encoding and from no proper prefix' is not checked (no validator over the x/text tables was built)"},
 	})
 	reg(&PropDef{
 		ID:    "C18",
@@ -458,6 +483,177 @@ loop:
 	cells, _, _ := s.GetContents()
 	if string(cells[0].Bytes) != "a" {
 		fail("cell 'a'+U+0301 (unencodable combining mark with a registered fallback) shows bytes %q; a real screen elides it: \"a\"", string(cells[0].Bytes))
+		return
+	}`)
+		}
+	}
+}
+
+// c11Paste: for every registered description that has bracketed-paste strings (its own or the XTermLike defaults),
+// the key table built by the real prepareKeys + prepareBracketedPaste maps the paste-start / paste-end sequences to
+// the internal paste keys, which parseFunctionKey turns into EventPaste(true/false).
+func c11Paste(run *PropRun) {
+	e := run.Eng
+	db := LoadTermDB(e, true)
+	c := db.Ev.C
+	fn := e.FindFunc(modPath + ".(*tScreen).prepareBracketedPaste")
+	if fn == nil {
+		panic(VerErr{"UNDECIDED: prepareBracketedPaste not found"})
+	}
+	const pasteStart, pasteEnd = 16384, 16385 // keyPasteStart, keyPasteEnd (key.go: iota + 16384)
+	if o, ok := e.PkgBy[modPath].Types.Scope().Lookup("keyPasteStart").(*types.Const); ok {
+		if v, exact := constantInt(o); !exact || v != pasteStart {
+			panic(VerErr{"UNDECIDED: keyPasteStart is not 16384 any more"})
+		}
+	}
+	n := 0
+	for _, te := range db.Entries {
+		_, fs, tp := buildKeyTable(db, te)
+		paths, err := db.Ev.Call(fs, fn, []Value{tp})
+		if err != nil || len(paths) != 1 {
+			panic(VerErr{fmt.Sprintf("evaluating prepareBracketedPaste for %s: %v (%d paths)", te.Name, err, len(paths))})
+		}
+		st := paths[0].St
+		tval := c.mem(st, tp.Obj).(*StructV)
+		stt := under(tval.Typ).(*types.Struct)
+		tab := map[string]int64{}
+		for i := 0; i < stt.NumFields(); i++ {
+			if stt.Field(i).Name() == "keycodes" {
+				mo := c.mapObj(st, tval.F[i].(MapV))
+				for _, en := range mo.Entries {
+					kc := c.mem(st, en.V.(PtrV).Obj).(*StructV)
+					tab[*en.K.(StrV).Conc] = termInt(kc.F[0])
+				}
+			}
+		}
+		var ps, pe string
+		switch {
+		case db.str(te, "EnablePaste") != "":
+			ps, pe = db.str(te, "PasteStart"), db.str(te, "PasteEnd")
+		case db.str(te, "Mouse") != "" || strings.HasPrefix(te.Name, "xterm") || db.str(te, "PasteStart") != "":
+			ps, pe = "\x1b[200~", "\x1b[201~"
+			if db.str(te, "PasteStart") != "" {
+				ps, pe = db.str(te, "PasteStart"), db.str(te, "PasteEnd")
+			}
+		default:
+			continue // the library does not enable bracketed paste for this description
+		}
+		ok := ps != "" && pe != "" && tab[ps] == pasteStart && tab[pe] == pasteEnd
+		g := run.AddObligation(fmt.Sprintf("paste[%s]/start-end-keys", te.Name), "table", BoolT(ok),
+			fmt.Sprintf("paste start %q and end %q decode to the internal paste keys (which parseFunctionKey turns into EventPaste)", ps, pe))
+		g.ReplayGo = replayKeyTable(te.Name, fmt.Sprintf(`s.prepareBracketedPaste(); a, b := s.keycodes[%q], s.keycodes[%q]; if a == nil || b == nil || a.key != keyPasteStart || b.key != keyPasteEnd { fail("paste markers %%q / %%q are not the paste keys", %q, %q); return }`, ps, pe, ps, pe))
+		n++
+	}
+	run.Extra["descriptions_with_bracketed_paste"] = n
+	for k := range c.Assumed {
+		run.Assumed[k] = true
+	}
+}
+
+func constantInt(o *types.Const) (int64, bool) {
+	return constant.Int64Val(o.Val())
+}
+
+// c02Replays: demonstrations on the real driver for the parseClipboard obligations.
+func c02Replays(run *PropRun) {
+	drv := func(input string, check string) string {
+		return replayTest("tcell", []string{"bytes", modPath + "/terminfo"}, `
+	s := &tScreen{ti: &terminfo.Terminfo{}, setClipboard: "x"}
+	s.cells.Resize(80, 24)
+	buf := bytes.NewBufferString(`+input+`)
+	evs := s.collectEventsFromInput(buf, true)
+`+check)
+	}
+	for _, g := range run.Groups {
+		switch g.Name {
+		case "tcell.(*tScreen).inputLoop/calls#fresh-chunk":
+			g.ReplayGo = replayTest("tcell", []string{"time", modPath + "/terminfo"}, `
+	tty := &verifSeqTty{reads: []string{"A", "B"}}
+	s := &tScreen{ti: &terminfo.Terminfo{}, tty: tty}
+	s.keychan = make(chan []byte, 10)
+	s.quit = make(chan struct{})
+	s.wg.Add(1)
+	go s.inputLoop(make(chan struct{}))
+	for i := 0; i < 200 && len(s.keychan) < 2; i++ { time.Sleep(5 * time.Millisecond) }
+	if len(s.keychan) < 2 { fail("the two reads were not queued"); return }
+	c1, c2 := <-s.keychan, <-s.keychan
+	if string(c1) != "A" || string(c2) != "B" {
+		fail("two reads \"A\", \"B\" were queued as %q, %q: a later read overwrote a chunk that was still queued", string(c1), string(c2))
+		return
+	}`) + `
+type verifSeqTty struct {
+	reads []string
+	i     int
+}
+
+func (t *verifSeqTty) Read(p []byte) (int, error) {
+	if t.i < len(t.reads) {
+		n := copy(p, t.reads[t.i])
+		t.i++
+		return n, nil
+	}
+	select {}
+}
+func (*verifSeqTty) Write(p []byte) (int, error)     { return len(p), nil }
+func (*verifSeqTty) Close() error                    { return nil }
+func (*verifSeqTty) Start() error                    { return nil }
+func (*verifSeqTty) Stop() error                     { return nil }
+func (*verifSeqTty) Drain() error                    { return nil }
+func (*verifSeqTty) NotifyResize(cb func())          {}
+func (*verifSeqTty) WindowSize() (WindowSize, error) { return WindowSize{Width: 80, Height: 24}, nil }
+`
+		case "tcell.(*tScreen).parseRune/ensures#all-prefixes":
+			g.ReplayGo = replayTest("tcell", []string{"bytes", modPath + "/terminfo"}, `
+	s := &tScreen{ti: &terminfo.Terminfo{}}
+	s.cells.Resize(80, 24)
+	s.decoder = GetEncoding("UTF-8").NewDecoder()
+	for _, txt := range []string{"\u00e9", "\u65e5", "\U0001F600", "a\U0001D11Eb"} {
+		evs := s.collectEventsFromInput(bytes.NewBufferString(txt), false)
+		var got []rune
+		for _, ev := range evs {
+			if k, ok := ev.(*EventKey); ok { got = append(got, k.Rune()) }
+		}
+		if string(got) != txt {
+			fail("text %q was delivered as %q (%d events) without waiting for the escape timeout", txt, string(got), len(evs))
+			return
+		}
+	}`)
+		case "tcell.(*tScreen).parseClipboard/ensures#header", "tcell.(*tScreen).parseClipboard/ensures#mismatch", "tcell.(*tScreen).parseClipboard/ensures#consumed":
+			g.ReplayGo = drv(`"\x1bXabcdefgh\a"`, `
+	// Alt+X, eight letters and Ctrl-G: ten key events; an OSC 52 reply it is not
+	if len(evs) != 10 {
+		fail("input ESC X a b c d e f g h BEL produced %d events (want 10): bytes that do not start with the OSC 52 header were swallowed as a clipboard reply", len(evs))
+		return
+	}`)
+		case "tcell.(*tScreen).parseClipboard/ensures#short", "tcell.(*tScreen).parseClipboard/loop1/invariant-entry#idx":
+			g.ReplayGo = replayTest("tcell", []string{"bytes", modPath + "/terminfo"}, `
+	// an OSC 52 reply split after 3..6 bytes of its header: the first read must be held back, not decoded
+	for cut := 1; cut <= 7; cut++ {
+		s := &tScreen{ti: &terminfo.Terminfo{}, setClipboard: "x"}
+		s.cells.Resize(80, 24)
+		whole := "\x1b]52;c;QUJD\a"
+		buf := bytes.NewBufferString(whole[:cut])
+		evs := s.collectEventsFromInput(buf, false)
+		buf.WriteString(whole[cut:])
+		evs = append(evs, s.collectEventsFromInput(buf, false)...)
+		if len(evs) != 1 {
+			fail("reply split after %d bytes produced %d events (want one EventClipboard)", cut, len(evs))
+			return
+		}
+		if cb, ok := evs[0].(*EventClipboard); !ok || string(cb.Data()) != "ABC" {
+			fail("reply split after %d bytes produced %T", cut, evs[0])
+			return
+		}
+	}`)
+		case "tcell.(*tScreen).parseClipboard/calls#decoded":
+			g.ReplayGo = drv(`"\x1b]52;c;QUJD\aZ"`, `
+	if len(evs) != 2 {
+		fail("OSC 52 reply followed by 'Z' produced %d events (want the clipboard event and the key): the reply is lost when more input follows it in the same read", len(evs))
+		return
+	}
+	cb, ok := evs[0].(*EventClipboard)
+	if !ok || string(cb.Data()) != "ABC" {
+		fail("first event is %T, want EventClipboard(\"ABC\")", evs[0])
 		return
 	}`)
 		}
